@@ -69,7 +69,10 @@ def _x_neighbours(cx, cy, cz, r, incl, as_id):
         return hx.end(True)
     env = _world(shape)
     fn = env.get_moore_neighbours if kind == 'moore' else env.get_neumann_neighbours
-    got = fn((cx, cy, cz), r, incl, int if as_id else tuple)
+    centre = (cx, cy, cz)
+    if hx.P.get('centre_form') == 'id':         # the same centre given as its cell id (row of the world's own table)
+        centre = cz * max(w, 1) * max(h, 1) + cy * max(w, 1) + cx
+    got = fn(centre, r, incl, int if as_id else tuple)
     exp = _ball(kind, shape, (cx, cy, cz), r, incl, as_id)
     if len(exp) > 0:
         hx.reach('nonempty')
@@ -247,6 +250,7 @@ def obligations(tier):
         K("neighbours_id_centre", k_neighbours_id_centre,
           parts=[{"kind": k, "N": NI, "ret": rt} for k in ("moore", "neumann") for rt in ("tuple", "int")], timeout=300, encoded=enc[:4]),
         X("x_neighbours", x_neighbours, parts=[{"shape": list(s), "kind": k, "R": 1 if tier == "quick" else 2} for s in shapes for k in ("moore", "neumann")] +
+          [{"shape": sh, "kind": k, "R": 1, "centre_form": "id", "light": True} for sh in ([1, 4, 0], [2, 3, 2], [3, 5, 0]) for k in ("moore", "neumann")] +
           # one large world: windows of several hundred cells (a query over 9x9x9 cells clipped to 8x8x8)
           [{"shape": [8, 8, 8], "kind": k, "R": 4, "Rmin": 4, "centre_box": [3, 4], "light": True} for k in (("moore",) if tier == "quick" else ("moore", "neumann"))],
           labels=("nonempty",), timeout=900, group=1, encoded=enc[:2],
